@@ -113,13 +113,20 @@ def jobs(prop, tier):
         BUS = dict(link=['lib/ebus/symbol.cpp', 'lib/ebus/device_trans.cpp', 'lib/ebus/result.cpp', 'lib/utils/thread.cpp'],
                    models=['string', 'libc', 'sstream', 'posix', 'containers'], solver=PORTFOLIO)
         pn = int(prop[2])
+        # the only BusRequest objects in these harnesses are RecRequest; ActiveBusRequest members stay out of the dispatch
+        # (checked, not assumed: a call that reaches a class outside the emitted candidates fails the slot check)
+        BUS['devirt_exclude'] = ['_ZN5ebusd16ActiveBusRequest']
         # (phase of the exchange, numeric BusState of protocol_direct.h, job name)
         phases = [(0, 2, 'arb'), (2, 15, 'endsyn'), (1, 9, 'sendcmd'), (1, 10, 'sendcmdcrc'), (1, 5, 'recvcmdack'),
                   (1, 6, 'recvres'), (1, 7, 'recvrescrc'), (1, 11, 'sendresack')]
         for nn in ((3, 16) if T else (16,)):
           for (mode, hstate, nm) in phases:
-            if nm == 'arb' and not T:
-                nn = 3   # the arbitration step does not look at the data bytes; the full size runs in the thorough tier (~5 min)
+            if nm == 'arb':
+                for (case, cn) in ((0, 'won'), (1, 'lost'), (2, 'silent')):
+                    J.append(Job(prop, 'act_arb_%s_nn%d' % (cn, nn), 'C02_step.cpp', defs={'NNMAX': nn, 'PROP': pn, 'MODE': mode, 'HSTATE': hstate, 'ARBCASE': case}, unwind=5, shape='S', timeout=3000 if T else 300,
+                         unwindset={'vp_main': 257, 'RecListener': nn + 8, 'related': nn + 8, 'relatedActive': nn + 8, 'reqIsM': nn + 8, 'setVec': nn + 8},
+                         bounds='one handler step from every state in which the own arbitration address was written and its echo is awaited, case "%s" of {address echoed, other symbol, nothing read}, request NN <= %d' % (cn, nn), **BUS))
+                continue
             J.append(Job(prop, 'act_%s_nn%d' % (nm, nn), 'C02_step.cpp', defs={'NNMAX': nn, 'PROP': pn, 'MODE': mode, 'HSTATE': hstate}, unwind=5, shape='S', timeout=3000 if T else 300,
                          unwindset={'vp_main': 257, 'RecListener': nn + 8, 'related': nn + 8, 'relatedActive': nn + 8, 'reqIsM': nn + 8, 'setVec': nn + 8},
                          bounds='one handler step from every state of phase "%s" of an own exchange related to a sender monitor state, request NN <= %d, response NN <= %d' % (nm, nn, nn), **BUS))
@@ -233,9 +240,24 @@ BUS_NOTE = ('Trusted: clang-14 lowering, ll2c, models (string, sstream, posix, c
             '(every read result = timeout | error | chunk of 1..2 arbitrary bytes), clock = arbitrary non-decreasing instants, logging off. '
             'DirectProtocolHandler::run() itself (thread start, 5 s reopen wait) is not encoded; its loop body is re-stated in env_bus.h Stepper.')
 META = {
- 'C02': dict(claimed=False, level_text='tbd', level_note='tbd', outside_claim='tbd', assumptions=COMMON_ASSUME),
- 'C03': dict(claimed=False, level_text='tbd', level_note='tbd', outside_claim='tbd', assumptions=COMMON_ASSUME),
- 'C04': dict(claimed=False, level_text='tbd', level_note='tbd', outside_claim='tbd', assumptions=COMMON_ASSUME),
+ 'C02': dict(
+   level_text='Bounded model checking, inductive: the real DirectProtocolHandler::handleSend/handleReceive/setState/messageCompleted on the real PlainDevice are run for ONE step from EVERY handler state with an own request in flight (arbitration address written and its echo awaited; sending command bytes; sending the command CRC; waiting for the command ACK; receiving the response; receiving the response CRC; sending ACK/NAK; sending the closing SYN -- one job per phase) that is related (relation RA in harness/C02_step.cpp) to a state of an independent sender monitor written from the statement (ref::Sender in ref_bus.h: escaped continuation, CRC over the escaped bytes, one repetition after NAK, ACK iff response CRC correct with one re-read, closing SYN), with every read outcome (timeout, device error, any symbol incl. wrong echo, SYN, bytes already buffered) chosen by the solver. Asserted: the step writes exactly the symbol the monitor expects (or nothing) and before reading its echo; the request is completed exactly when the monitor says the exchange ended, with RESULT_OK iff the monitor judged it valid for the destination kind, carrying the unescaped response; it is reported as md_send with the request bytes iff it succeeded; the successor state is in RA again or in the passive relation of C01. The arbitration phase (entry into RA) is part of RA. Bound: request and response NN <= 16 (the eBUS maximum), one step.',
+   level_note=BUS_NOTE + ' Preconditions (part of the claim): the queued request is a complete master telegram (5+NN bytes, NN <= 16) from a master address to a valid other address; not read-only (addRequest refuses requests in read-only mode). RA fixes state, send position, CRC, escape state, repeat flags, response bytes, current request, device arbitration state; lock counters, seen addresses, latency statistics, clock, listener state, retry counters, restart/self-delete flags are arbitrary. Plain device only. The retry loop of ProtocolHandler::sendAndWait (client thread side) is not encoded. After a protocol-level failure decided by ebusd itself (second NAK, second response CRC error, wrong ACK symbol) the monitor accepts both "closing SYN" and "silent".',
+   outside_claim='EnhancedDevice (adapter arbitrates); sendAndWait retry loop and client-side waiting; NN > 16; malformed request objects; durations (timeouts are outcomes, not measured times)',
+   assumptions=COMMON_ASSUME + ['induction: relation RA of harness/C02_step.cpp together with the passive relation of rel_bus.h is an invariant (entry: arbitration phase; step: act_* jobs)', 'sender monitor ref::Sender in harness/ref_bus.h states the C02 wire rules'],
+ ),
+ 'C03': dict(
+   level_text='Bounded model checking, inductive, of the entitlement to write on the states with an own exchange in progress (same step harness as C02, assertion group 3): from every such state one handler step writes at most one symbol, only as the echo-verified continuation the sender monitor expects (never while the arbitration echo is still awaited, never in a receiving phase), and after an echo mismatch, a read timeout or device error, or a received SYN the successor state is a passive, non-sending state (silent until the next SYN).',
+   level_note=BUS_NOTE + ' This decides clauses (b) and "silent after echo mismatch / receive error" of the statement on the plain device. Clause (a) (arming only with expired lock counter and a pending request), clause (d) (AUTO-SYN) and read-only silence on passive states with queued requests are decided by the passive step variant where registered (pas_* jobs); clause (c) (answering) belongs to the C15 harness. The stronger reading "skip one more SYN after a lost arbitration" is reported as observation OBS-C03-lockcount-dead (DESIGN section 3), not asserted.',
+   outside_claim='EnhancedDevice; answer mode writes (C15); wall-clock AUTO-SYN interval measurement',
+   assumptions=COMMON_ASSUME + ['same relations as C02'],
+ ),
+ 'C04': dict(
+   level_text='Bounded model checking, inductive, of request bookkeeping (same step harness as C02, assertion group 4, with one more request waiting in the queue and one in the finished queue): after one handler step from every state with an own exchange in progress or an arbitration pending, under every read outcome, the request is in exactly one place (current, next queue once, finished queue once, deleted once); it is completed at most once (a second completion only as NO_SIGNAL drain of the new life of a request that asked for a restart in the same step), exactly when the exchange ends; a lost arbitration re-queues it without notification while bus-lost retries remain and completes it with ERR_BUS_LOST otherwise; restart re-queues, self-deleting requests are deleted once, waited requests reach the finished queue once; loss of signal completes every queued request once with NO_SIGNAL; bystander requests are untouched. Use after delete is covered by CBMC pointer checks on the deleted object.',
+   level_note=BUS_NOTE + ' Sequential claim about the bus thread only: the interleaving clause of the statement (client threads in addRequest/sendAndWait against the bus thread on Queue<T>) is NOT decided -- CBMC concurrency on the translated std::list/pthread code was not attempted within this budget. PollRequest/ScanRequest::notify bodies are replaced by a request mock whose restart answer is arbitrary.',
+   outside_claim='thread schedules (client threads vs bus thread), Queue<T> under concurrency, device close/reopen loop of run(), PollRequest/ScanRequest/ActiveBusRequest notify bodies, liveness ("eventually") beyond one step',
+   assumptions=COMMON_ASSUME + ['same relations as C02'],
+ ),
  'C20': dict(
    level_text='Bounded model checking of memory safety and bounded work on the kernels that consume untrusted bytes: adapter frames incl. arbitrary INFO transfers into the 17-byte info buffer (real notifyInfoRetrieved), chunked adapter streams, escaped hex parsing, numeric field decode/encode at arbitrary offsets, numeric text parsing for every libc outcome, answer-key construction. Obligations are CBMC built-in checks (array bounds, pointer validity incl. freed objects, division by zero, signed overflow, uncaught-exception model, unwinding assertions) plus shift/conversion checks confirmed by native UBSan replay.',
    level_note='Covers only the listed kernels. NOT covered (beyond this encoding, see DESIGN section 8): the protocol handler state machine on arbitrary bus traffic, client command lines and HTTP requests through MainLoop, CSV/definition loaders, leak freedom of request objects. Those interfaces are fuzzing territory; no claim is made for them.',
